@@ -65,6 +65,11 @@ void usePolicies()
 		D d; d.appendListener("k", [](int, const std::string &) {}); d.dispatch("k", 1, std::string("x")); d.dispatch(std::string("k"));
 	}
 	{
+		// the whole SingleThreading::Atomic interface (the library itself never calls store())
+		eventpp::SingleThreading::Atomic<int> a(1); a.store(2); (void)a.load(); (void)a.exchange(3); (void)++a; (void)--a;
+		eventpp::SingleThreading::Atomic<unsigned long long> b; b.store(2); (void)b.load(); (void)b.exchange(3); (void)++b; (void)--b;
+	}
+	{
 		// callbacks with a return value and reference arguments
 		using CL = eventpp::CallbackList<int (std::string &, const Payload &), PoliciesSpin>;
 		CL l; auto h = l.append([](std::string &, const Payload &) { return 1; }); l.insert([](std::string &, const Payload &) { return 2; }, h);
